@@ -336,6 +336,7 @@ pub fn run(tier: &str, prop: Prop) -> i32 {
     rep.bound("weights: -0.0, NaN, infinities and values above 1 are outside 'weights in [0,1]' and are not used");
 
     cell_pairs(&mut rep, prop, what, thorough);
+    parsed_ranges(&mut rep, prop);
     failing_writer(&mut rep, prop);
     if prop == Prop::C06 {
         tokens_roundtrip(&mut rep);
@@ -398,11 +399,15 @@ pub fn cell_pair_contents(thorough: bool) -> Vec<Contents> {
                 _ => false,
             };
             let far = !same_cell;
-            for (sx, sy) in [(2u8, 0u8), (3, 0), (4, 0), (5, 1), (0, 2), (1, 3), (2, 2)] {
-                if far && !thorough && !((sx, sy) == (2, 0) || (sx, sy) == (3, 0)) {
+            for (sx, sy) in [(2u8, 0u8), (3, 0), (4, 0), (5, 1), (0, 2), (1, 3), (2, 2), (0, 0)] {
+                if far && !thorough && !((sx, sy) == (2, 0) || (sx, sy) == (3, 0) || (sx, sy) == (0, 0)) {
                     continue;
                 }
-                if far && !thorough && (i * 7 + j) % 5 != 0 {
+                // both cells complete at one weight: every ordered pair (runs must not cross rows); the partial states: a fifth
+                if far && !thorough && (sx, sy) != (0, 0) && (i * 7 + j) % 5 != 0 {
+                    continue;
+                }
+                if (sx, sy) == (0, 0) && i > j {
                     continue;
                 }
                 let mut c = Contents::new();
@@ -436,6 +441,72 @@ fn cell_pairs(rep: &mut Report, prop: Prop, what: &str, thorough: bool) {
         }
     }
     rep.sub("cell-pairs", "two cells of the chart in different states (complete at either weight, only the first combo, all but the first combo, half/half, alternating weights): all 78 same-cell pairs (AKs beside AKo, both directions) in seven state pairs, and ordered pairs of different cells in the partial-then-complete states (a fifth of them in quick, all 28,392 in every state pair in thorough)", cs.len() as u64, cs.len() as u64, thorough, json!({}));
+}
+
+/// ranges obtained by PARSING (either card order, either rank order): the range object itself must
+/// print canonically and round-trip - not only a range rebuilt from its contents
+fn parsed_ranges(rep: &mut Report, prop: Prop) {
+    let mut texts: Vec<String> = vec![];
+    for a in 0..52u8 {
+        for b in 0..52u8 {
+            if a != b {
+                texts.push(format!("{}{}", card_text(a), card_text(b)));
+                if (a as usize * 52 + b as usize) % 9 == 0 {
+                    texts.push(format!("{}{}:0.25,{}{}:0.75", card_text(a), card_text(b), card_text(b), card_text(a)));
+                }
+            }
+        }
+    }
+    // all six / four / twelve combos of a rank pair spelled second-card-first
+    for rp in RP::all() {
+        let t: Vec<String> = rp.combos().iter().map(|c| format!("{}{}", card_text(c.1), card_text(c.0))).collect();
+        texts.push(t.join(","));
+    }
+    for h in 0..12usize {
+        for k in (h + 1)..13usize {
+            texts.push(format!("{}{}s", RANK_CHARS[k], RANK_CHARS[h]));
+            texts.push(format!("{}{}o:0.5,{}{}s", RANK_CHARS[k], RANK_CHARS[h], RANK_CHARS[h], RANK_CHARS[k]));
+        }
+    }
+    let chunk = 128;
+    let nch = (texts.len() + chunk - 1) / chunk;
+    let outs = par_map(nch, |k| {
+        let mut bad = vec![];
+        for t in &texts[k * chunk..((k + 1) * chunk).min(texts.len())] {
+            let t2 = t.clone();
+            let r = catch(move || {
+                let range: HandRange = t2.parse().unwrap();
+                let text = range.to_string();
+                let back: HandRange = text.parse().unwrap();
+                (contents_of(&range), text, back == range, range.card_pairs().keys().all(|cp| cp[0] < cp[1]))
+            });
+            let problem = match r {
+                Err(e) => Some(json!({"panic": e})),
+                Ok((contents, text, same, canonical_keys)) => {
+                    if !canonical_keys {
+                        Some(json!({"problem": "the parsed range holds a key that is not in canonical form", "prints": text}))
+                    } else if prop == Prop::C06 && !same {
+                        Some(json!({"problem": "the parsed range does not equal the range parsed from its own text", "prints": text}))
+                    } else {
+                        check_canonical_text(&contents, &text)
+                    }
+                }
+            };
+            if let Some(p) = problem {
+                if bad.len() < 3 {
+                    bad.push((t.clone(), p));
+                }
+            }
+        }
+        bad
+    });
+    for bad in outs {
+        for (t, p) in bad {
+            let shown = if t.len() > 60 { format!("{}...", &t[..60]) } else { t.clone() };
+            rep.violation(Violation { key: format!("parsed={}", shown), sub: "parsed-ranges".into(), case: json!({"text": t}), expected: json!("a range obtained by parsing prints canonically and parses back to itself"), observed: p });
+        }
+    }
+    rep.sub("parsed-ranges", "ranges obtained by parsing: all 2,652 ordered card-pair texts, a ninth of them also as 'ab:0.25,ba:0.75', the combos of every rank pair spelled second-card-first, every kicker-first rank-pair token alone and beside its high-first twin: canonical keys, canonical text, and the object equals the range parsed from its own text", texts.len() as u64, texts.len() as u64, true, json!({}));
 }
 
 struct Limited {
